@@ -268,6 +268,29 @@ def model_drift(ctx):
     return {l: {"rows": len(v), "cells": sum(v.values())} for l, v in drift.items()}
 
 
+def readme_report():
+    """informational: the README conversion table against the specification's reference table
+    (the two known misprints, and anything new should the README be edited)"""
+    try:
+        spec_rows = {}
+        for m in re.finditer(r'<<"(\w+)", "([\w-]+)", (-1|\\h[0-9A-F]{2}), "([\w-]+)", (-1|\\h[0-9A-F]{2})>>',
+                             open(os.path.join(SPEC, "Scancodes.tla")).read()):
+            conv = lambda p, c: None if c == "-1" else (({"P": 0, "E0": 0xE000, "E1": 0xE100}[p]) | int(c[2:], 16))
+            spec_rows[m.group(1)] = (conv(m.group(2), m.group(3)), conv(m.group(4), m.group(5)))
+        diffs = []
+        for l in open(os.path.join(REPO, "README.md")):
+            m = re.match(r"\|\s*(\w+)\s*\|\s*(\S+)\s*\|\s*(\S+)\s*\|", l)
+            if m and m.group(1) in spec_rows:
+                rd = tuple(None if x == "--" else int(x, 16) for x in (m.group(2), m.group(3)))
+                if rd != spec_rows[m.group(1)]:
+                    diffs.append({"key": m.group(1), "readme": ["%s" % m.group(2), "%s" % m.group(3)],
+                                  "reference": [None if v is None else hex(v) for v in spec_rows[m.group(1)]]})
+        return {"rows_compared": len(spec_rows), "differences": diffs,
+                "note": "NumpadEnter (Set 2) and Apps (Set 1) are README misprints: each collides with another row"}
+    except Exception as e:
+        return {"error": str(e)}
+
+
 def export_dir(ctx):
     """tables exported from the specification by TLC (depends on the spec only)"""
     d = os.path.join(WORK, "cache", "spec-" + spec_hash(), "export")
@@ -984,6 +1007,7 @@ def run_check(pid, tier, seed):
                       "served_from_cache_of_same_tree": bool(r.get("from_cache")),
                       "notes": r["notes"][:3]} for r in results],
             "known_findings_observed": len(known_hit),
+            "readme_table_vs_reference": (readme_report() if pid in ("C01", "C02", "C13") else None),
             "model_drift_informational": (model_drift(ctx) if "conf_layouts_model" in jobs else None),
             "rule": "traces_validated_against_impl = implementation transitions / table cells / trace lines "
                     "extracted from the real objects in this run and judged by TLC, plus calls made by the "
